@@ -204,6 +204,34 @@ fn observe<S>(
     if info.word == "-" {
         out.count(&format!("emptyword_{}", kind));
     }
+    let bucket = |n: usize| match n {
+        0 => "0",
+        1 => "1",
+        2..=5 => "2-5",
+        6..=20 => "6-20",
+        _ => ">20",
+    };
+    match kind {
+        "cluster" => {
+            out.count(&format!("cluster_expansions_{}", bucket(info.word.matches("gUgLrUrL").count())));
+            if info.word.contains("gFrF") {
+                out.count("cluster_weight_branch");
+            }
+            if info.word.starts_with("gOgOgB") {
+                out.count("cluster_no_constant_op_branch");
+            }
+        }
+        "loop" => out.count(&format!("loop_bodies_{}", bucket(info.word.matches("gLgFrLrF").count()))),
+        "rvb" | "istep" | "isteps" => {
+            // sub-variable sweeps inside accepted RVB moves
+            let sweeps = info.word.matches("gOgOgUgUgHrH").count();
+            let accepted = info.word.matches("gUgUgCgO").count() + info.word.matches("gUgUgCrC").count();
+            out.add("rvb_subvariable_sweeps", sweeps as u64);
+            out.add("rvb_accepted_moves_seen_in_words", accepted as u64);
+            out.add("rvb_moves_seen_in_words", info.word.matches("gVgVgBgB").count() as u64);
+        }
+        _ => {}
+    }
     match r {
         Ok(()) => {
             let after = snapf(s);
@@ -1030,6 +1058,12 @@ fn main() {
     let mut gen = SplitMix64::new(a.seed.wrapping_mul(0x9E37_79B9).wrapping_add(18));
     match a.mode.as_str() {
         "pool" => {
+            // the occupancy of a fresh pool must be the capacities the proofs were checked against
+            let fresh = FastOps::new_from_nvars(3);
+            emit(true, "caps", &list(&snap(&fresh)), Some(Ok(())));
+            let v = serde_json::to_value(qmc::sse::fast_op_alloc::DefaultFastOpAllocator::default()).unwrap();
+            let direct: Vec<u64> = FIELDS.iter().map(|f| v[*f]["instances"].as_u64().unwrap_or(u64::MAX)).collect();
+            emit(false, "caps", &list(&direct), Some(Ok(())));
             ising_scenarios(&mut out, &mut gen, a.thorough);
             generic_scenarios(&mut out, &mut gen, a.thorough);
             tempering_scenarios(&mut out, &mut gen, a.thorough);
